@@ -260,7 +260,7 @@ pub fn run_kind(g: &G, syms: &[u8], kind: Kind, mode: PMode, env: &Env, budget: 
                 value!(chumsky::input::MappedInput<u8, CS, Stream<SimIter<(u8, CS)>>, _>, Stream::from_iter(it).map(eoi, f))
             }
             Kind::IterInput => {
-                let (it, log) = SimCloneIter::new(Rc::new(pairs.clone()));
+                let (it, log) = SimCloneIter::new(Rc::new(pairs.clone()), env.hint);
                 ilog = Some(log);
                 let r = catch_unwind(AssertUnwindSafe(|| build_input_only::<IterInput<SimCloneIter<(u8, CS)>, CS>>(g)));
                 match r {
